@@ -18,7 +18,7 @@ STD_ENUMS = {
     'Ordering': ['Less', 'Equal', 'Greater'],       # discriminants -1, 0, 1 (handled specially)
     'Err': ['Incomplete', 'Error', 'Failure'],      # nom::Err
     'Needed': ['Unknown', 'Size'],
-    'Out2': ['A', 'B'],                             # ws/shims/tokio select! model
+    'Out2': ['A', 'B'], 'Out3': ['A', 'B', 'C'],       # ws/shims/tokio select! model
 }
 
 FOREIGN_ROOTS = ('std::', 'core::', 'alloc::', 'nom::', 'tokio::', 'bytes::', 'tracing::', 'ahash::')
